@@ -70,6 +70,13 @@ type runCtx struct {
 
 func (c *runCtx) quick() bool { return c.tier != "thorough" }
 
+func (c *runCtx) violationCount() int {
+	c.mu.Lock()
+	defer c.mu.Unlock()
+
+	return c.violations
+}
+
 func (c *runCtx) setLevel(l string) { c.level = l }
 
 func (c *runCtx) assume(s ...string) {
